@@ -65,6 +65,11 @@ func ruleDataMatrixEncoder(c *Ctx) {
 				}
 			}
 		}
+		if in == nil {
+			// the bytes are read from the string itself
+			delete(n.Bind, fn.Params[0])
+			in = fn.Params[0]
+		}
 		if in == nil || hdr == nil {
 			c.Undecided(R5, "datamatrix.encodeText/shape", fn.Pos(), "input byte slice or scanning loop not found")
 		} else {
